@@ -110,6 +110,24 @@ def path_obligations():
         gterm = ("callres", gem[0][1], "clf.get_gemini", (), ()) if gem else None
         ob("init: validation scores are compute_val_score(clf, X, y, batch_size, clf.get_gemini())",
            bool(cv) and all(e[3][:3] == (CLF, V("X"), V("y")) and e[3][4] == gterm for e in cv))
+        # every validation score -- at the start of a step, after each epoch -- is asked under the contract verified for
+        # compute_val_score (contracts/batching.py): the model, the data, the effective batch size, the objective, and nothing
+        # that would replace what the function derives from the model at the time of the call (its current selection)
+        import inspect
+        cvp = [p_ for p_ in inspect.signature(BS.compute_val_score).parameters]
+        eff_b = ("ite", ("cmp", ("Is",), (("attr", CLF, "batch_size"), fx.C(None))), None, ("attr", CLF, "batch_size"))
+
+        def _cv_ok(e):
+            am = fx.argmap(("callres", e[1], e[2], e[3], e[4]), cvp)
+            b_ = am.get("batch_size")
+            okb = (isinstance(b_, tuple) and b_[0] == "ite" and b_[1] == eff_b[1] and b_[3] == eff_b[3]
+                   and b_[2][:1] == ("callres",) and b_[2][2] == "len" and b_[2][3] == (V("X"),))
+            extra = {k_: v_ for k_, v_ in am.items() if k_ not in ("clf", "X", "y", "batch_size", "gemini_objective")}
+            return (am.get("clf") == CLF and am.get("X") == V("X") and am.get("y") == V("y") and okb and am.get("gemini_objective") == gterm
+                    and all(v_ == fx.C(None) for v_ in extra.values()))
+        ob("every validation score is compute_val_score(clf, X, y, effective batch size, objective) with no further argument "
+           "(the selection scored is the model's own at the time of the call)", bool(cv) and all(_cv_ok(e) for e in cv),
+           {"calls": [[fx.show(a_)[:80] for a_ in e[3]] + [k_ for k_, _ in e[4]] for e in cv][:3]})
         # ---------------- outer loop
         outer = [e for e in ev if e[0] == "loop-enter" and len(e[3]) == 1]
         if len(outer) != 1:
